@@ -80,10 +80,11 @@ fn any_sa() -> SocketAddr { if kani::any() { SocketAddr::V4(kani::any()) } else 
 /// the situations the listener creates a Callback in: the version the client spoke, the target it asked for in that
 /// version (SOCKS4: IPv4 or name; SOCKS5: IPv4, IPv6 or a name), and a relay address only for a SOCKS5 UDP association
 #[cfg(kani)]
-fn any_session() -> (Callback, Context) {
+fn any_session(target_known: bool) -> (Callback, Context) {
     let v5: bool = kani::any();
     let k: u8 = kani::any();
-    let target = if k == 0 { TargetAddress::SocketAddr(SocketAddr::V4(kani::any())) } else if k == 1 || !v5 { TargetAddress::DomainPort(kani::any(), kani::any()) } else { TargetAddress::SocketAddr(SocketAddr::V6(kani::any())) };
+    // a refusal can happen before the request was parsed: the context then still has its default target (Unknown)
+    let target = if !target_known && k == 7 { TargetAddress::Unknown } else if k == 0 { TargetAddress::SocketAddr(SocketAddr::V4(kani::any())) } else if k == 1 || !v5 { TargetAddress::DomainPort(kani::any(), kani::any()) } else { TargetAddress::SocketAddr(SocketAddr::V6(kani::any())) };
     let listen_addr = if v5 && kani::any() { Some(any_sa()) } else { None };
     let has_stream: bool = kani::any();
     (Callback { version: if v5 { 5 } else { 4 }, listen_addr },
@@ -93,7 +94,7 @@ fn any_session() -> (Callback, Context) {
 #[cfg(kani)]
 #[kani::proof]
 fn on_connect_reply_is_complete() {
-    let (cb, mut ctx) = any_session();
+    let (cb, mut ctx) = any_session(true);
     kani::assume(ctx.client_stream.is_some());     // on_connect runs while the client stream is still in the context
     unsafe { IO_OK = kani::any(); }
     run_ready(cb.on_connect(&mut ctx));
@@ -108,7 +109,7 @@ fn on_connect_reply_is_complete() {
 #[cfg(kani)]
 #[kani::proof]
 fn on_error_reply_is_complete() {
-    let (cb, mut ctx) = any_session();
+    let (cb, mut ctx) = any_session(false);
     unsafe { IO_OK = kani::any(); }
     let had = ctx.client_stream.is_some();
     run_ready(cb.on_error(&mut ctx, Error(9)));
@@ -116,6 +117,7 @@ fn on_error_reply_is_complete() {
         assert!(N_PARTIAL == 0, "a reply was abandoned half-written");
         if had && IO_OK { assert!(N_COMPLETE == 1 && LAST.0 == cb.version && LAST.1 != 0); } else { assert!(N_COMPLETE == 0); }
         kani::cover!(N_COMPLETE == 1 && cb.version == 5);
+        kani::cover!(N_COMPLETE == 1 && ctx.target == TargetAddress::Unknown);
     }
 }
 fn main() {}
